@@ -48,6 +48,10 @@ fn any_cs(allow_self: bool) -> Cs {
     Cs { actor: any_actor(allow_self), full, v, v2: v, s0, s1, last_seq }
 }
 fn mk(c: &Cs) -> ChangeV1 {
+    mk_tagged(c, kani::any())
+}
+/// `tag` rides in the timestamp field, which the ingest path only compares with the clock
+fn mk_tagged(c: &Cs, tag: u64) -> ChangeV1 {
     let changeset = if c.full {
         let mut changes = Vec::new();
         changes.push(Change);
@@ -56,10 +60,10 @@ fn mk(c: &Cs) -> ChangeV1 {
             changes,
             seqs: CrsqlSeq(c.s0)..=CrsqlSeq(c.s1),
             last_seq: CrsqlSeq(c.last_seq),
-            ts: Timestamp(NTP64(kani::any())),
+            ts: Timestamp(NTP64(tag)),
         }
     } else {
-        Changeset::Empty { versions: CrsqlDbVersion(c.v)..=CrsqlDbVersion(c.v2), ts: None }
+        Changeset::Empty { versions: CrsqlDbVersion(c.v)..=CrsqlDbVersion(c.v2), ts: Some(Timestamp(NTP64(tag))) }
     };
     ChangeV1 { actor_id: c.actor, changeset }
 }
@@ -157,12 +161,39 @@ fn ingest_step_keeps_j(qn: usize, max_queue_len: usize) {
     let offered = any_cs(true);
     let src = if kani::any() { ChangeSource::Broadcast } else { ChangeSource::Sync };
     let offered_cost = mk(&offered).processing_cost();
+    const OFFER_TAG: u64 = 0xfeed_0000_0000;
+    // BEFORE the step: does the cache cover everything the offer carries? is it booked?
+    let pre_seen_covers = match seen.get(&(offered.actor, CrsqlDbVersion(offered.v))) {
+        None => false,
+        Some(set) => {
+            if offered.full {
+                let mut all = true;
+                let mut s = offered.s0;
+                while s <= offered.s1 {
+                    if !set.contains(&CrsqlSeq(s)) {
+                        all = false;
+                    }
+                    s += 1;
+                }
+                all
+            } else {
+                true
+            }
+        }
+    };
+    let pre_booked = offered.actor != SELF && {
+        let i = if offered.actor == A { 0 } else { 1 };
+        match w.bookie.map.get(&offered.actor) {
+            None => false,
+            Some(b) => b.0.contains_all(CrsqlDbVersion(offered.v)..=CrsqlDbVersion(offered.v2), if offered.full { Some(&(CrsqlSeq(offered.s0)..=CrsqlSeq(offered.s1))) } else { None }),
+        }
+    };
     // was it suppressed / known BEFORE the step?
     let (pa, pv, ps): (ActorId, u64, u64) = (any_actor(false), kani::any(), kani::any());
     kani::assume(1 <= pv && pv <= NV && ps <= NS);
 
     let (new_cost, _) = venv::task::block_on(ingest_step(
-        mk(&offered),
+        mk_tagged(&offered, OFFER_TAG),
         src,
         &w.agent,
         &w.bookie,
@@ -203,9 +234,16 @@ fn ingest_step_keeps_j(qn: usize, max_queue_len: usize) {
         }
     }
 
-    // (b) the offered changeset is queued unless self-authored, suppressed or already booked
+    // (b) the offered changeset is queued unless self-authored, suppressed or already booked —
+    //     and it is suppressed only if the cache really covered ALL of it
+    let accepted = queue.len() > 0 && {
+        let (last, _, _) = queue.get(queue.len() - 1).unwrap();
+        last.ts() == Some(Timestamp(NTP64(OFFER_TAG)))
+    };
     if offered.actor == SELF {
-        assert!(queue.len() == qn, "C10: a self-authored changeset was queued");
+        assert!(!accepted && queue.len() == qn, "C10: a self-authored changeset was queued");
+    } else {
+        assert!(accepted == !(pre_seen_covers || pre_booked), "C10: an offered changeset was dropped although the node neither holds it nor has all of it on the way (or a duplicate was queued)");
     }
     kani::cover!(offered.actor != SELF && (queue.len() == qn + 1 || (evicted && qn > 0 && q[0].actor != offered.actor)), "offer accepted (enqueue, or eviction of another actor's change)");
     core::mem::forget((queue, seen, w));
